@@ -231,3 +231,55 @@ package agent
 //@ loop 0 invariant forall k uint64: visited(k) && has(r.byUpstream, k) ==> r.byUpstream[k].UpstreamPeer != peer && r.byUpstream[k].DownstreamPeer != peer
 //@ at call Unlock assert forall k uint64: has(r.byUpstream, k) ==> r.byUpstream[k].UpstreamPeer != peer && r.byUpstream[k].DownstreamPeer != peer
 //@ at call Unlock assert forall k uint64: has(r.byDownstream, k) ==> r.byDownstream[k].UpstreamPeer != peer && r.byDownstream[k].DownstreamPeer != peer
+
+// ---- C39: a control response goes back to the peer the request came from, under the requester's id ----
+//
+// Request ids are minted by each requester, so ids of different requesters collide. Invariant of the
+// control mutex: every key of both maps is at most the agent's own counter and no key is in both maps.
+// A locally issued request and a forwarded request each take counter+1 as their key, which is
+// therefore in neither map; the forwarded copy travels under that key and the entry remembers the
+// source peer and the requester's own id, which are restored on the way back.
+
+//@ guarded Agent.controlMu: pendingControl, forwardedControl, nextControlID
+//@ lockinv Agent.controlMu(a): a.pendingControl != a.forwardedControl && (forall k uint64: has(a.pendingControl, k) ==> k <= a.nextControlID) && (forall k uint64: has(a.forwardedControl, k) ==> k <= a.nextControlID) && (forall k uint64: !(has(a.pendingControl, k) && has(a.forwardedControl, k)))
+//@ mapwritesonly[C39] Agent.pendingControl: (*Agent).SendControlRequestWithData, (*Agent).handleControlResponse, (*Agent).routeAdvertiseLoop
+//@ mapwritesonly[C39] Agent.forwardedControl: (*Agent).handleControlRequest, (*Agent).handleControlResponse, (*Agent).routeAdvertiseLoop
+
+//@ func (*Agent).SendControlRequestWithData
+//@ prop C39
+//@ modifies *
+//@ check lockset
+//@ after call Lock#0 assume a.nextControlID < 18446744073709551615
+//@ at call Unlock#0 assert has(a.pendingControl, requestID) && a.pendingControl[requestID] == pending && pending.RequestID == requestID
+//@ at call (*ControlRequest).Encode assert $0.RequestID == requestID && $0.TargetAgent == targetID && $0.ControlType == controlType
+//@ note the assumption: fewer than 2^64-1 control requests are issued or forwarded in an agent's lifetime (the counter does not wrap)
+
+//@ func (*Agent).handleControlRequest
+//@ prop C39
+//@ modifies *
+//@ check lockset
+//@ after call DecodeControlRequest let req0 = $ret0
+//@ after call Lock#0 assume a.nextControlID < 18446744073709551615
+//@ at call Unlock#0 assert has(a.forwardedControl, fwdID) && a.forwardedControl[fwdID].SourcePeer == peerID && a.forwardedControl[fwdID].RequestID == req.RequestID
+//@ at call (*ControlRequest).Encode assert $0.RequestID == fwdID && $0.TargetAgent == req.TargetAgent && $0.ControlType == req.ControlType && $0.Data == req.Data
+//@ at call sendControlResponse assert $1 == peerID && $2 == req.RequestID && $3 == req.ControlType
+//@ at call getLocalStatus assert req.TargetAgent == a.id || forall j in 0..16: req.TargetAgent[j] == 0
+//@ at call handleRouteManage assert req.TargetAgent == a.id || forall j in 0..16: req.TargetAgent[j] == 0
+//@ at call handleFileBrowse assert req.TargetAgent == a.id || forall j in 0..16: req.TargetAgent[j] == 0
+//@ note a request is answered locally only if it names this agent (or no agent); the answer and every error reply go to the peer the request came from, under the requester's id
+
+//@ func (*Agent).handleControlResponse
+//@ prop C39
+//@ modifies *
+//@ check lockset
+//@ at call (*ControlResponse).Encode assert hasForwarded && $0.RequestID == forwarded.RequestID
+//@ at call SendToPeer assert hasForwarded && !(hasPending && pending.ResponseCh != nil) && $1 == forwarded.SourcePeer
+//@ note a response is handed to a local waiter only if its id is a key of pendingControl (ids this agent issued itself), otherwise it is sent to the source peer remembered for that key, carrying the requester's own id
+
+//@ func (*Agent).routeAdvertiseLoop
+//@ prop C39
+//@ modifies *
+//@ check lockset
+//@ loop 1 invariant a.pendingControl != a.forwardedControl && (forall k uint64: has(a.pendingControl, k) ==> k <= a.nextControlID) && (forall k uint64: has(a.forwardedControl, k) ==> k <= a.nextControlID) && (forall k uint64: !(has(a.pendingControl, k) && has(a.forwardedControl, k)))
+//@ loop 2 invariant a.pendingControl != a.forwardedControl && (forall k uint64: has(a.pendingControl, k) ==> k <= a.nextControlID) && (forall k uint64: has(a.forwardedControl, k) ==> k <= a.nextControlID) && (forall k uint64: !(has(a.pendingControl, k) && has(a.forwardedControl, k)))
+//@ note the periodic clean-up only deletes entries; the obligations generated here are the lock invariant at its release and the lockset of its map accesses
